@@ -438,6 +438,40 @@ def falsy_cases(w: World):
     return out
 
 
+def sample_nth_cases(w: World):
+    """Sampling together with every-n-th-day selection (with and without a start date): the answer must be an ordered
+    subset of the every-n-th-day set, of plausible size; with sample=1.0 exactly that set."""
+    out = []
+    mid = w.days[len(w.days) // 3]
+    for smp in (0.5, 1.0):
+        for n in (2, 3):
+            for start in (None, _date_of(w.days[0]), _date_of(mid), _date_of(mid + 1)):
+                out.append(_case(w, 'query', None, 'sample+nth', start=start, nth=n, sample=smp,
+                                 plan=['run', 'run'] if smp == 1.0 else ['run']))
+    out.append(_case(w, 'query', {'min_distance': 0}, 'sample+nth', nth=2, sample=1.0, limit=7, offset=2))
+    out.append(_case(w, 'query', {}, 'sample+nth', nth=2, sample=0.5, start=_date_of(w.days[0]), plan=['sql', 'run']))
+    return out
+
+
+def single_route_cases(w: World):
+    """Exactly one origin airport and one destination airport, on routes whose reverse direction is stored too: only
+    the stated direction may come back (strings and one-element lists, all three query classes)."""
+    out = []
+    pairs = {(r['o'], r['d']) for r in w.rows}
+    both = sorted(p_ for p_ in pairs if (p_[1], p_[0]) in pairs and p_[0] != p_[1])
+    one_way = sorted(p_ for p_ in pairs if (p_[1], p_[0]) not in pairs)
+    j = 0
+    for o, d in both[:8] + one_way[:3]:
+        for kind in ('query', 'count', 'frequent'):
+            flt = {'origin_airport': o, 'destination_airport': d} if j % 2 else \
+                {'origin_airport': [o], 'destination_airport': [d]}
+            out.append(_case(w, kind, flt, 'single-route', plan=['run']))
+            j += 1
+        out.append(_case(w, 'query', {'origin_airport': [o], 'destination_airport': [d], 'min_seat_capacity': 0},
+                         'single-route', plan=['run', 'run']))
+    return out
+
+
 def midnight_cases(w: World):
     """Date bounds against departures at exactly 00:00:00 and 23:59:59 UTC: end_date = D keeps 23:59:59 of D and
     excludes 00:00:00 of D+1; start_date = D keeps 00:00:00 of D."""
@@ -1065,7 +1099,8 @@ def run(chk: Check):
                 'empty database; fixed streams: no filter / Filter() / only-empty-lists filters for every query class '
                 'run 1-4 times with to_sql in between (also sampled), date bounds against departures at 00:00:00 and '
                 '23:59:59 UTC, falsy-but-set values (0, 0.0, empty string, offset 0, every_nth 1, sample 1.0; limit 0 / '
-                'every_nth 0 / sample 0.0 refused), boxes on both ends at once, pairs of queries consumed alternately on one Database; non-trivial = a non-empty filter with a non-empty answer, '
+                'every_nth 0 / sample 0.0 refused), sampling combined with every-n-th-day selection, one origin and one '
+                'destination airport on routes stored in both directions, boxes on both ends at once, pairs of queries consumed alternately on one Database; non-trivial = a non-empty filter with a non-empty answer, '
                 'or a plan with more than one build, or an illegal mix, or an empty filter')
     chk.trusted += ['translator/c14_extract.py', 'harness/c14.py (row export, comparison modulo ties)',
                     'SQLite as evaluator of the generated SQL (incl. R-tree), sqlite3 module: exercised, not modelled']
@@ -1096,7 +1131,8 @@ def run(chk: Check):
     corpus = load_corpus(chk)
     for name, n in (('generated', chk.n(330, 3000)), ('shipped', chk.n(130, 1200))):
         w = worlds[name]
-        cases = ([c for c in corpus if c['db'] == name] + sample_cases(w) + value_cases(w) + falsy_cases(w) + midnight_cases(w)
+        cases = ([c for c in corpus if c['db'] == name] + sample_cases(w) + value_cases(w) + falsy_cases(w) + sample_nth_cases(w) + single_route_cases(w)
+                 + midnight_cases(w)
                  + both_ends_box_cases(chk.rng, w) + [gen_case(chk.rng, w) for _ in range(n)])
         for c in cases:
             c['db_seed'], c['db_n'] = db_seed, db_n
